@@ -7,6 +7,8 @@ list is added; equivalent states give databases with the same entry under every 
 -/
 import PybtexModel.Lemmas.EngineItems
 import PybtexModel.Lemmas.CIMap
+import PybtexModel.Lemmas.BibReport
+import PybtexModel.Lemmas.UniCase
 
 namespace Pybtex.Engine
 open Pybtex Pybtex.Interp
@@ -26,7 +28,7 @@ theorem addStep_cases (st : Bib.St) (ke : Str × Bib.Entry) :
     (Bib.wantEntry st.db ke.1 = false ∧ addStep st ke = st) ∨
     (Bib.wantEntry st.db ke.1 = true ∧ Bib.hasEntry st.db ke.1 = true ∧ st.strict = true ∧ addStep st ke = st) ∨
     (Bib.wantEntry st.db ke.1 = true ∧ Bib.hasEntry st.db ke.1 = true ∧ st.strict = false ∧
-      addStep st ke = { st with errs := st.errs ++ [dupErr ke] }) ∨
+      addStep st ke = st.report (dupErr ke)) ∨
     (Bib.wantEntry st.db ke.1 = true ∧ Bib.hasEntry st.db ke.1 = false ∧
       addStep st ke = { st with db := added st.db ke }) := by
   cases hw : Bib.wantEntry st.db ke.1 with
@@ -142,7 +144,7 @@ theorem addStep_eqv {st st' : Bib.St} (h : Eqv st st') (ke : Str × Bib.Entry) :
   (try (rw [h.strict, hs] at hs'; cases hs')) <;> rw [e, e']
   · exact h
   · exact h
-  · exact ⟨by simp only [h.errs], h.strict, h.pre, h.cit, h.ents, h.want⟩
+  · exact ⟨by simp only [Bib.St.report_errs, h.errs], h.strict, h.pre, h.cit, h.ents, h.want⟩
   · exact ⟨h.errs, h.strict, hA.1, hA.2.1, hA.2.2.1, hA.2.2.2⟩
 
 theorem foldl_addStep_eqv (es : List (Str × Bib.Entry)) {st st' : Bib.St} (h : Eqv st st') :
@@ -179,11 +181,16 @@ theorem lower_canonicalKey {db : Bib.Db} (hi : CISet.Inv db.citations) (k : Str)
       exact this.symm
     · rfl
 
+/-- ... hence also up to `str.lower()`, the folding `add_entry` compares keys with (`Bib.keyFold`) -/
+theorem keyFold_canonicalKey {db : Bib.Db} (hi : CISet.Inv db.citations) (k : Str) :
+    Bib.keyFold (Bib.canonicalKey db k) = Bib.keyFold k :=
+  lowerU_of_lower (lower_canonicalKey hi k)
+
 /-- what `add_entry` does to a state `T`, decided by the status of the key in a state `S` -/
 def effect (S : Bib.St) (ke : Str × Bib.Entry) (T : Bib.St) : Bib.St :=
   if Bib.wantEntry S.db ke.1 = false then T
   else if Bib.hasEntry S.db ke.1 = true then
-    (if S.strict = true then T else { T with errs := T.errs ++ [dupErr ke] })
+    (if S.strict = true then T else T.report (dupErr ke))
   else { T with db := added T.db ke }
 
 theorem addStep_effect_of (S T : Bib.St) (ke : Str × Bib.Entry) (hw : Bib.wantEntry T.db ke.1 = Bib.wantEntry S.db ke.1)
@@ -204,17 +211,17 @@ def NoRef (x : Str × Bib.Entry) (k : Str) : Prop :=
   ∀ cr, Bib.findFieldCI x.2.fields "crossref".toList = some cr → Spec.keq k cr = false ∧ Spec.keq ['*'] cr = false
 
 theorem added_status {db : Bib.Db} (hi : CISet.Inv db.citations) (x : Str × Bib.Entry) (k : Str)
-    (h1 : lower x.1 ≠ lower k) (h2 : NoRef x k) :
+    (h1 : Bib.keyFold x.1 ≠ Bib.keyFold k) (h2 : NoRef x k) :
     Bib.wantEntry (added db x) k = Bib.wantEntry db k ∧ Bib.hasEntry (added db x) k = Bib.hasEntry db k ∧
     (added db x).citations = db.citations := by
-  have hk : (lower (Bib.canonicalKey db x.1) == lower k) = false := by
-    rw [lower_canonicalKey hi]; simpa using h1
+  have hk : (Bib.keyFold (Bib.canonicalKey db x.1) == Bib.keyFold k) = false := by
+    rw [keyFold_canonicalKey hi]; simpa using h1
   unfold added
   cases hx : Bib.findFieldCI x.2.fields "crossref".toList with
   | none =>
     refine ⟨rfl, ?_, rfl⟩
     simp only [Bib.hasEntry, List.any_append, List.any_cons, List.any_nil, Bool.or_false]
-    have : decide (lower (Bib.canonicalKey db x.1) = lower k) = false := by simpa using hk
+    have : decide (Bib.keyFold (Bib.canonicalKey db x.1) = Bib.keyFold k) = false := by simpa using hk
     simp only [this, Bool.or_false]
   | some cr =>
     obtain ⟨q1, q2⟩ := h2 cr hx
@@ -222,17 +229,17 @@ theorem added_status {db : Bib.Db} (hi : CISet.Inv db.citations) (x : Str × Bib
     | none =>
       refine ⟨by simp only [Bib.wantEntry, hw], ?_, rfl⟩
       simp only [Bib.hasEntry, List.any_append, List.any_cons, List.any_nil, Bool.or_false]
-      have : decide (lower (Bib.canonicalKey db x.1) = lower k) = false := by simpa using hk
+      have : decide (Bib.keyFold (Bib.canonicalKey db x.1) = Bib.keyFold k) = false := by simpa using hk
       simp only [this, Bool.or_false]
     | some w =>
       refine ⟨?_, ?_, rfl⟩
       · simp only [Bib.wantEntry, hw, contains_add, q1, q2, Bool.false_or]
       · simp only [Bib.hasEntry, List.any_append, List.any_cons, List.any_nil, Bool.or_false]
-        have : decide (lower (Bib.canonicalKey db x.1) = lower k) = false := by simpa using hk
+        have : decide (Bib.keyFold (Bib.canonicalKey db x.1) = Bib.keyFold k) = false := by simpa using hk
         simp only [this, Bool.or_false]
 
 theorem effect_status (S : Bib.St) (hi : CISet.Inv S.db.citations) (x : Str × Bib.Entry) (k : Str)
-    (h1 : lower x.1 ≠ lower k) (h2 : NoRef x k) :
+    (h1 : Bib.keyFold x.1 ≠ Bib.keyFold k) (h2 : NoRef x k) :
     Bib.wantEntry (effect S x S).db k = Bib.wantEntry S.db k ∧ Bib.hasEntry (effect S x S).db k = Bib.hasEntry S.db k ∧
     (effect S x S).strict = S.strict := by
   unfold effect
@@ -274,7 +281,7 @@ theorem added_comm {db : Bib.Db} (a b : Str × Bib.Entry) :
 theorem effect_comm (S : Bib.St) (a b : Str × Bib.Entry)
     (h3 : Bib.hasEntry S.db a.1 = false ∨ Bib.hasEntry S.db b.1 = false) :
     Eqv (effect S b (effect S a S)) (effect S a (effect S b S)) := by
-  unfold effect
+  unfold effect Bib.St.report
   by_cases hs : S.strict = true <;>
   cases hwa : Bib.wantEntry S.db a.1 <;> cases hwb : Bib.wantEntry S.db b.1 <;>
   cases hha : Bib.hasEntry S.db a.1 <;> cases hhb : Bib.hasEntry S.db b.1 <;>
@@ -287,7 +294,7 @@ theorem effect_comm (S : Bib.St) (a b : Str × Bib.Entry)
 
 /-- two neighbours of the reader's list change places -/
 theorem addStep_swap (S : Bib.St) (a b : Str × Bib.Entry) (hi : CISet.Inv S.db.citations)
-    (h1 : lower a.1 ≠ lower b.1) (h2a : NoRef a b.1) (h2b : NoRef b a.1)
+    (h1 : Bib.keyFold a.1 ≠ Bib.keyFold b.1) (h2a : NoRef a b.1) (h2b : NoRef b a.1)
     (h3 : Bib.hasEntry S.db a.1 = false ∨ Bib.hasEntry S.db b.1 = false) :
     Eqv (addStep (addStep S a) b) (addStep (addStep S b) a) := by
   have sa := effect_status S hi a b.1 h1 h2a
@@ -307,7 +314,8 @@ theorem added_entries (db : Bib.Db) (x : Str × Bib.Entry) :
 
 theorem addStep_citations (st : Bib.St) (ke : Str × Bib.Entry) : (addStep st ke).db.citations = st.db.citations := by
   rcases addStep_cases st ke with ⟨_, e⟩ | ⟨_, _, _, e⟩ | ⟨_, _, _, e⟩ | ⟨_, _, e⟩ <;> rw [e]
-  exact added_citations _ _
+  · rfl
+  · exact added_citations _ _
 
 theorem foldl_addStep_citations (es : List (Str × Bib.Entry)) (st : Bib.St) :
     (es.foldl addStep st).db.citations = st.db.citations := by
@@ -338,7 +346,7 @@ theorem addStep_nodupK (st : Bib.St) (ke : Str × Bib.Entry) (hi : CISet.Inv st.
     obtain ⟨e', he', hk⟩ := List.mem_map.1 hx
     have : Bib.hasEntry st.db ke.1 = true := by
       unfold Bib.hasEntry
-      exact List.any_eq_true.2 ⟨e', he', by simpa using hk⟩
+      exact List.any_eq_true.2 ⟨e', he', decide_eq_true (lowerU_of_lower hk : Bib.keyFold e'.key = Bib.keyFold ke.1)⟩
     rw [hh] at this
     cases this
 
@@ -352,7 +360,7 @@ theorem foldl_addStep_nodupK (es : List (Str × Bib.Entry)) (st : Bib.St) (hi : 
 
 /-- a key that no entry of the list has (up to case) is not in the database afterwards -/
 theorem foldl_addStep_hasEntry (es : List (Str × Bib.Entry)) (st : Bib.St) (hi : CISet.Inv st.db.citations) (k : Str)
-    (h0 : Bib.hasEntry st.db k = false) (h : ∀ ke ∈ es, lower ke.1 ≠ lower k) :
+    (h0 : Bib.hasEntry st.db k = false) (h : ∀ ke ∈ es, Bib.keyFold ke.1 ≠ Bib.keyFold k) :
     Bib.hasEntry (es.foldl addStep st).db k = false := by
   induction es generalizing st with
   | nil => exact h0
@@ -367,7 +375,7 @@ theorem foldl_addStep_hasEntry (es : List (Str × Bib.Entry)) (st : Bib.St) (hi 
     · show Bib.hasEntry (added st.db ke) k = false
       unfold Bib.hasEntry at *
       rw [added_entries, List.any_append, h0]
-      simp only [List.any_cons, List.any_nil, Bool.or_false, Bool.false_or, lower_canonicalKey hi]
+      simp only [List.any_cons, List.any_nil, Bool.or_false, Bool.false_or, keyFold_canonicalKey hi]
       simpa using hk
 
 /-! ### the same entries in another order: the same entry under every key -/
@@ -465,8 +473,8 @@ theorem readParsed_alt (ts : List Str) (cits : List Str) (mc : Int) (es : List (
     readParsed { bibTexts := ts, citations := cits, minCrossrefs := mc, alt := some (es, pream) } s = altParsed s es pream := rfl
 
 theorem altParsed_swap (s : St) (epre epost : List (Str × Bib.Entry)) (a b : Str × Bib.Entry) (pream : List Str)
-    (h1 : lower a.1 ≠ lower b.1) (h2a : NoRefD a b.1) (h2b : NoRefD b a.1)
-    (h3 : (∀ ke ∈ epre, lower ke.1 ≠ lower a.1) ∨ (∀ ke ∈ epre, lower ke.1 ≠ lower b.1)) :
+    (h1 : Bib.keyFold a.1 ≠ Bib.keyFold b.1) (h2a : NoRefD a b.1) (h2b : NoRefD b a.1)
+    (h3 : (∀ ke ∈ epre, Bib.keyFold ke.1 ≠ Bib.keyFold a.1) ∨ (∀ ke ∈ epre, Bib.keyFold ke.1 ≠ Bib.keyFold b.1)) :
     Eqv (altParsed s (epre ++ a :: b :: epost) pream) (altParsed s (epre ++ b :: a :: epost) pream) ∧
     NodupK (altParsed s (epre ++ a :: b :: epost) pream).db.entries := by
   have hi0 : CISet.Inv ({ readSt0 s with db := { (readSt0 s).db with preamble := pream } } : Bib.St).db.citations :=
